@@ -53,6 +53,7 @@ func (bucket *Bucket) Close(_ context.Context) {
 
 	bucket.mutex.Lock()
 	alreadyClosed := bucket.closed
+	bucket.closed = true // test-and-set: a concurrent Close, or a call racing with this one, sees it at once
 	bucket.mutex.Unlock()
 	if alreadyClosed {
 		return // closing a handle twice must not release another handle's reference
